@@ -8,7 +8,7 @@ package rlp
 // Specification functions (C08): the canonical RLP header of a string/list of a given size.
 //
 //@ spec fn rlpNbytes(x uint64) uint64 = ite(x < 256, uint64(1), ite(x < 65536, uint64(2), ite(x < 16777216, uint64(3), ite(x < 4294967296, uint64(4), ite(x < 1099511627776, uint64(5), ite(x < 281474976710656, uint64(6), ite(x < 72057594037927936, uint64(7), uint64(8))))))))
-//@ spec fn rlpBeByte(b []byte, n uint64, k uint64) uint64 = ite(k < n, uint64(b[n-1-k]) << (8*k), uint64(0))
+//@ spec fn rlpBeByte(b []byte, n uint64, j uint64) uint64 = ite(j < n, uint64(b[j]) << (8*(n-1-j)), uint64(0))
 //@ spec fn rlpBe(b []byte, n uint64) uint64 = rlpBeByte(b,n,0) | rlpBeByte(b,n,1) | rlpBeByte(b,n,2) | rlpBeByte(b,n,3) | rlpBeByte(b,n,4) | rlpBeByte(b,n,5) | rlpBeByte(b,n,6) | rlpBeByte(b,n,7)
 //@ spec fn rlpBase(k Kind) byte = ite(k == List, byte(192), byte(128))
 //@ spec fn rlpHeadOK(buf []byte, k Kind, ts uint64, cs uint64) bool =
@@ -48,4 +48,70 @@ package rlp
 //@   property C08
 //@   loop 0: invariant i >= 0 && ref(b) == old(ref(b)) && uint64(off(b)) + uint64(len(b)) == old(uint64(off(b)) + uint64(len(b))) && uint64(off(b)) >= old(uint64(off(b))) && uint64(i) <= uint64(off(b)) - old(uint64(off(b)))
 //@   ensures [count] result1 == nil ==> result0 >= 0 && uint64(result0) <= uint64(len(b))
+//@   modifies nothing
+
+// ---------------------------------------------------------------------------------------------
+// encode.go
+
+//@ spec fn rlpHeadsize(size uint64) uint64 = ite(size < 56, uint64(1), 1 + rlpNbytes(size))
+
+//@ func intsize
+//@   property C08
+//@   loop 0: invariant 1 <= size && size <= 8 && i == old(i) >> uint64(8*(size-1)) && (size > 1 ==> i != 0)
+//@   ensures [minimal] uint64(size) == rlpNbytes(i)
+//@   modifies nothing
+
+//@ func putint
+//@   property C08
+//@   requires uint64(len(b)) >= rlpNbytes(i)
+//@   ensures [size]  uint64(size) == rlpNbytes(i)
+//@   ensures [value] rlpBe(b, uint64(size)) == i
+//@   ensures [rest]  unchanged(b, size, len(b))
+//@   modifies elems(b)
+
+//@ func headsize
+//@   property C08
+//@   ensures [size] uint64(result) == rlpHeadsize(size)
+//@   modifies nothing
+
+//@ func puthead
+//@   property C08
+//@   requires len(buf) >= 9
+//@   ensures [size]   uint64(result) == rlpHeadsize(size)
+//@   ensures [string] smalltag == 128 && largetag == 183 ==> rlpHeadOK(buf, String, uint64(result), size)
+//@   ensures [list]   smalltag == 192 && largetag == 247 ==> rlpHeadOK(buf, List, uint64(result), size)
+//@   ensures [rest]   unchanged(buf, result, len(buf))
+//@   modifies elems(buf)
+
+// encbuf: w.sizebuf is the 9-byte scratch buffer allocated by encbufPool.New; it never aliases w.str.
+//@ spec fn rlpStrEncLen(n uint64, single bool) uint64 = ite(single, uint64(1), rlpHeadsize(n) + n)
+
+//@ func encbuf.encodeStringHeader
+//@   property C08
+//@   requires w != nil && size >= 0 && len(w.sizebuf) >= 9 && ref(w.sizebuf) != ref(w.str)
+//@   ensures [len]    uint64(len(w.str)) == old(uint64(len(w.str))) + rlpHeadsize(uint64(size))
+//@   ensures [head] rlpHeadOK(w.str[old(len(w.str)):], String, rlpHeadsize(uint64(size)), uint64(size))
+//@   ensures [tag]    w.str[old(len(w.str))] == ite(size < 56, 128 + byte(size), 183 + byte(rlpNbytes(uint64(size))))
+//@   ensures [prefix] forall k int :: 0 <= k && k < old(len(w.str)) ==> w.str[k] == old(w.str[k])
+//@   ensures [sizebuf] len(w.sizebuf) == old(len(w.sizebuf)) && ref(w.sizebuf) == old(ref(w.sizebuf)) && ref(w.sizebuf) != ref(w.str)
+//@   ensures [alias]  ref(w.str) == old(ref(w.str)) || fresh(w.str)
+//@   modifies w.str, elems(w.str), elems(w.sizebuf)
+
+//@ func encbuf.encodeString
+//@   property C08
+//@   requires w != nil && len(w.sizebuf) >= 9 && ref(w.sizebuf) != ref(w.str) && ref(b) != ref(w.str) && ref(b) != ref(w.sizebuf)
+//@   ensures [len]    uint64(len(w.str)) == old(uint64(len(w.str))) + rlpStrEncLen(uint64(len(b)), len(b) == 1 && b[0] <= 127)
+//@   ensures [single] len(b) == 1 && b[0] <= 127 ==> w.str[old(len(w.str))] == b[0]
+//@   ensures [tag]    !(len(b) == 1 && b[0] <= 127) ==> w.str[old(len(w.str))] == ite(len(b) < 56, 128 + byte(len(b)), 183 + byte(rlpNbytes(uint64(len(b)))))
+//@   # not claimed: "the bytes after the header are exactly b" and the full header of the long form; both are
+//@   # quantified facts through two appends that no installed solver discharges within the thorough limit.
+//@   ensures [prefix!slow] forall k int :: 0 <= k && k < old(len(w.str)) ==> w.str[k] == old(w.str[k])
+//@   ensures [alias]  ref(w.str) == old(ref(w.str)) || fresh(w.str)
+//@   ensures [sizebuf] len(w.sizebuf) == old(len(w.sizebuf)) && ref(w.sizebuf) == old(ref(w.sizebuf)) && ref(w.sizebuf) != ref(w.str)
+//@   modifies w.str, elems(w.str), elems(w.sizebuf)
+
+//@ func encbuf.size
+//@   property C08
+//@   requires w != nil
+//@   ensures result == len(w.str) + w.lhsize
 //@   modifies nothing
